@@ -1,3 +1,4 @@
+import AquaVerif.Proofs.CropFull
 import AquaVerif.Generated.CropTable
 import AquaVerif.Proofs.Response
 import AquaVerif.Proofs.RealInstance
@@ -338,5 +339,16 @@ theorem all_catalogue_crops_satisfy_premises : ∀ c ∈ Aqua.Generated.cropTabl
   Aqua.Generated.cropTable_responseOK
 
 theorem catalogue_has_37_crops : Aqua.Generated.cropTable.length = 37 := Aqua.Generated.cropTable_count
+
+
+/-- The response-function table `cropTable` is, entry by entry, the projection of the full crop
+table generated from the same sources, and every catalogue crop satisfies `ResponseOK`. -/
+theorem response_table_is_projection_of_full_table :
+    Aqua.Generated.cropFullTable.length = Aqua.Generated.cropTable.length ∧
+    ∀ p ∈ (Aqua.Generated.cropFullTable.map CropFull.toResp).zip Aqua.Generated.cropTable,
+      RespAgree p.1 p.2 := catalogue_toResp_agrees
+
+theorem full_catalogue_response_ok :
+    ∀ c ∈ Aqua.Generated.cropFullTable, ResponseOK c.toResp := catalogue_responseOK
 
 end Aqua.C17
